@@ -156,4 +156,80 @@ def run(repo='/repo', tier='quick'):
     badb = [b for b, v in backs if not v]
     res.check(not badb and bool(backs), 'C08.g', 'htp_tx_state_response_headers:token-loop:limit-every-iteration', 'every way back to the loop head has passed the layer-limit test',
               'a token that adds no decompressor goes round the Content-Encoding loop without passing the layer-limit test: the number of passes is no longer bounded by the limit, and each pass re-scans the separators in front of the current token', hf.blocks[lims[0]]['stmts'][-1]['loc'])
+    c08h(db, res)
+    c08c2(db, res)
     return res
+
+
+SCANNERS = ('memchr', 'bstr_util_mem_index_of_c', 'bstr_util_mem_index_of_c_nocase', 'bstr_util_mem_index_of_mem', 'bstr_util_mem_index_of_mem_nocase',
+            'bstr_util_mem_index_of_mem_nocasenorzero', 'bstr_util_mem_index_of_c_nocasenorzero', 'bstr_chr', 'bstr_index_of_c', 'strchr', 'strstr')
+
+
+def c08h(db, res):
+    """A loop that walks a buffer item by item (cookies, tokens, parameters) may search ahead - but then the cursor has to jump to
+    what the search found. A search over "the rest of the buffer" whose result does not move the cursor is repeated over the
+    same bytes for the next item: k items cost k^2/2 byte comparisons."""
+    res.rule('C08.h', 'a search over the rest of the buffer moves the cursor: inside every loop with a cursor c, a call of a scanning function over (data + c, len - c) has its result assigned (directly or through a local) to c in that loop - otherwise the remainder is searched again for every item')
+    n = 0
+    for name, f in sorted(db.fn.items()):
+        if not f.blocks or f.loc.startswith('htp/lzma/'):
+            continue
+        for h, body in C.loops(f):
+            stepped = {strip(w['l'])['name'] for bb in body for st in f.blocks[bb]['stmts'] for w in nodes(st, lambda y: y.get('k') == 'assign' and strip(y['l']).get('k') == 'var')}
+            stepped |= {strip(u['e'])['name'] for bb in body for st in f.blocks[bb]['stmts'] for u in nodes(st, lambda y: y.get('k') == 'un' and y['op'] in ('++', '++post') and strip(y['e']).get('k') == 'var')}
+            for bb in sorted(body):
+                for st in f.blocks[bb]['stmts']:
+                    holders = []
+                    for d in nodes(st, lambda y: y.get('k') == 'decl'):
+                        holders += [(v['name'], strip(v['init'])) for v in d['vars'] if v.get('init') is not None]
+                    for a in nodes(st, lambda y: y.get('k') == 'assign' and y['op'] == '=' and strip(y['l']).get('k') == 'var'):
+                        holders.append((strip(a['l'])['name'], strip(a['r'])))
+                    for R, e in holders:
+                        if e is None or e.get('k') != 'call' or e.get('callee') not in SCANNERS or len(e.get('args') or []) < 2:
+                            continue
+                        win = strip(e['args'][2]) if e.get('callee') == 'memchr' and len(e['args']) > 2 else strip(e['args'][1])
+                        if win is None or win.get('k') != 'bin' or win['op'] != '-':
+                            continue
+                        cur = strip(win['r'])
+                        if cur.get('k') != 'var' or cur['name'] not in stepped:
+                            continue
+                        c = cur['name']
+                        n += 1
+                        # does the cursor take the result?
+                        def derived(name_, depth=0):
+                            for b2 in body:
+                                for s2 in f.blocks[b2]['stmts']:
+                                    for w in nodes(s2, lambda y: y.get('k') == 'assign' and strip(y['l']).get('k') == 'var'):
+                                        tgt = strip(w['l'])['name']
+                                        if any(strip(v).get('name') == name_ for v in nodes(w['r'], lambda y: y.get('k') == 'var')):
+                                            if tgt == c or (depth < 2 and tgt != name_ and derived(tgt, depth + 1)):
+                                                return True
+                            return False
+                        res.check(derived(R), 'C08.h', '%s:%s=%s(...%s...)' % (name, R, e.get('callee'), P.K(win)), 'the cursor jumps to what the search found',
+                                  '%s searches the rest of the buffer (%s bytes from the cursor) with %s() inside its item loop, but the cursor `%s` never takes the result `%s`: the same remainder is searched again for the next item - k items cost O(k^2)' % (name, P.K(win), e.get('callee'), c, R), e.get('loc', f.loc))
+    res.analysed['C08.h: searches over the rest of a buffer inside an item loop'] = n
+    if n == 0:
+        res.holds('C08.h', 'no-search-over-the-rest-in-item-loops', 'no item loop searches the rest of its buffer (the self-test variant c08h-* is the positive control)', '')
+
+
+def c08c2(db, res):
+    """C08.c for both directions: a chunk-length state that has looked at a consolidated line (htp_parse_chunked_length) and goes
+    round its loop again has consumed that line - cleared the line buffer, or moved the consumer position - so that the next
+    line does not start with the same bytes."""
+    for d, sd, name in (('in', 'req', 'htp_connp_REQ_BODY_CHUNKED_LENGTH'), ('out', 'res', 'htp_connp_RES_BODY_CHUNKED_LENGTH')):
+        f = db.get(name)
+        clear = 'htp_connp_%s_clear_buffer' % sd
+        for b, i, c in f.calls('htp_parse_chunked_length'):
+            heads = {h for h, body in C.loops(f) if b in body}
+            bad = None
+            k = 0
+            for atoms, events, end, seq in P.enum_paths_seq(f, (b, i), max_paths=20000):
+                if end[0] != 'loop' or end[1] not in heads:
+                    continue
+                k += 1
+                consumed = any(x[0] == 'stmt' and (any(c2.get('callee') == clear for c2 in nodes(x[3], lambda y: y.get('k') == 'call')) or P.assigns_field(x[3], '%s_current_consume_offset' % d)) for x in seq)
+                if not consumed:
+                    bad = [x for x in seq if x[0] == 'stmt'][-1][3] if [x for x in seq if x[0] == 'stmt'] else c
+            if k:
+                res.check(bad is None, 'C08.c', name + ':parsed-line-consumed-before-next-line', 'every way round the loop after the line was parsed consumes it',
+                          '%s parses a chunk-length line and goes round its loop without consuming it: the next line is consolidated together with the old one, a run of k such lines is re-scanned k times' % name, (bad or c).get('loc', f.loc))
